@@ -868,6 +868,14 @@ func (e *codecEngine) Step(ws []string, o *Out) string {
 			d = append(d, parseDigestTok(t))
 		}
 		b, err := g.VEncodeDigest(h, d, max)
+		snap := append([]byte(nil), b...)
+		// the bytes handed out must stay what they are while other packets are encoded (the
+		// sender writes them to the socket later, other goroutines encode meanwhile)
+		_, _ = g.VEncodeDigest(g.VDigestHeader{NodeID: "~other~", Addr: "~zz~:1", Request: !h.Request}, g.VDigest{{ID: "~x~", Addr: "~y~", Version: 1<<63 + 5}}, huge)
+		_, _ = g.VEncodeDelta(g.VDeltaHeader{NodeID: "~other~", Addr: "~zz~:1"}, nil, huge)
+		if err == nil && !bytes.Equal(snap, b) {
+			o.Fail("C13", "emitted-packet-mutated", "a digest packet changed after another packet was encoded: "+hexPkt(snap)+" -> "+hexPkt(b))
+		}
 		full, _ := g.VEncodeDigest(h, d, huge)
 		hdr, _ := g.VEncodeDigest(h, nil, huge)
 		dec := ""
@@ -889,6 +897,12 @@ func (e *codecEngine) Step(ws []string, o *Out) string {
 			d = append(d, parseNodeTok(t))
 		}
 		b, err := g.VEncodeDelta(h, d, max)
+		snap := append([]byte(nil), b...)
+		_, _ = g.VEncodeDelta(g.VDeltaHeader{NodeID: "~other~", Addr: "~zz~:1"}, nil, huge)
+		_, _ = g.VEncodeDigest(g.VDigestHeader{NodeID: "~other~", Addr: "~zz~:1"}, g.VDigest{{ID: "~x~", Addr: "~y~", Version: 1<<63 + 5}}, huge)
+		if err == nil && !bytes.Equal(snap, b) {
+			o.Fail("C13", "emitted-packet-mutated", "a delta packet changed after another packet was encoded: "+hexPkt(snap)+" -> "+hexPkt(b))
+		}
 		full, _ := g.VEncodeDelta(h, d, huge)
 		hdr, _ := g.VEncodeDelta(h, nil, huge)
 		dec := ""
